@@ -182,7 +182,7 @@ def validate_trace(module, cfg, trace_path, timeout=600, dfs=False, xmx="4g", en
     return accepted, max(0, r.depth - 1), r
 
 
-def validate_segments(module, cfg, segments, workdir, tag="seg", max_events=15000, cap=50, dfs=False,
+def validate_segments(module, cfg, segments, workdir, tag="seg", max_events=15000, cap=12, dfs=False,
                       cfg_text=None, timeout=900, parallel=4):
     """Validate independent executions (each a list of ndjson lines, beginning with a Reset event).
     Returns (n_accepted_segments, rejections) where a rejection is dict(segment=index, event=index in segment
